@@ -12,11 +12,23 @@ import zipfile
 
 import vlib
 
-SCRATCH_ROOT = os.path.join(vlib.BUILD, 'scratch.%d' % os.getpid())
+def _scratch_root():
+    # thousands of tiny directories are created and removed per run: a memory file system is ~100 times faster.
+    # Failures are injected at the python level, so the kind of file system does not matter.
+    for base in ('/dev/shm', vlib.BUILD):
+        if os.path.isdir(base) and os.access(base, os.W_OK | os.X_OK):
+            return os.path.join(base, 'verif_c11_scratch.%d' % os.getpid())
+    return os.path.join(vlib.BUILD, 'scratch.%d' % os.getpid())
+
+
+SCRATCH_ROOT = _scratch_root()
 
 
 class InjectedFault(OSError):
     pass
+
+
+KILL_STATUS = 77
 
 
 class Injector:
@@ -24,10 +36,17 @@ class Injector:
     `fault_at`-th one raise InjectedFault (mode 'raise': before doing anything; mode 'partial': a file write puts half
     of the data first).  Exactly one failure per run; later primitives run normally (error handlers may clean up)."""
 
-    def __init__(self, root, fault_at=None, mode='raise'):
+    def __init__(self, root, fault_at=None, mode='raise', kill=None):
         self.root = os.path.abspath(root) if root else None
         self.fault_at = fault_at
         self.mode = mode
+        # kill: None = exception semantics (the primitive raises, the code runs on);  'count' = only count the
+        # positions of the kill runs;  'flush' / 'noflush' = the PROCESS STOPS before the primitive (os._exit: no
+        # except / finally clause, no __exit__, no buffered data written unless 'flush' = everything the process
+        # handed to file objects so far has reached the disk).  Kill runs have extra positions: before a written
+        # file / archive is closed.
+        self.kill = kill
+        self.open_files = []
         self.count = 0
         self.trace = []
         self.writes_before = None
@@ -52,6 +71,15 @@ class Injector:
         return False
 
     def fail(self, name):
+        if self.kill in ('flush', 'noflush'):
+            if self.kill == 'flush':
+                for f in self.open_files:
+                    try:
+                        f.flush()
+                        os.fsync(f.fileno())
+                    except Exception:
+                        pass
+            os._exit(KILL_STATUS)
         raise InjectedFault('injected failure at primitive %d (%s)' % (self.count - 1, name))
 
     def _patch(self, obj, attr, new):
@@ -76,6 +104,13 @@ class Injector:
         class FileProxy:
             def __init__(self, f):
                 self._f = f
+                inj.open_files.append(f)
+
+            def close(self):
+                if inj.kill and not self._f.closed:
+                    if inj.hit('close'):
+                        inj.fail('close')
+                return self._f.close()
 
             def write(self, data):
                 if inj.hit('write'):
@@ -93,6 +128,7 @@ class Injector:
                 return self
 
             def __exit__(self, *a):
+                self.close()
                 return self._f.__exit__(*a)
 
             def __iter__(self):
@@ -141,6 +177,22 @@ class Injector:
                         inj.fail(_nm)
                 return _orig(zself, *a, **kw)
             self._patch(zipfile.ZipFile, nm, zfn)
+
+        orig_zinit = zipfile.ZipFile.__dict__['__init__']
+
+        def zinit(zself, file, mode='r', *a, **kw):
+            orig_zinit(zself, file, mode, *a, **kw)
+            if mode != 'r' and zself.filename and inj._mine(zself.filename) and zself.fp is not None:
+                inj.open_files.append(zself.fp)
+        self._patch(zipfile.ZipFile, '__init__', zinit)
+        orig_zclose = zipfile.ZipFile.__dict__['close']
+
+        def zclose(zself):
+            if inj.kill and zself.fp is not None and zself.mode != 'r' and zself.filename and inj._mine(zself.filename):
+                if inj.hit('zip.close'):
+                    inj.fail('zip.close')
+            return orig_zclose(zself)
+        self._patch(zipfile.ZipFile, 'close', zclose)
         return self
 
     def __exit__(self, *exc):
@@ -196,8 +248,10 @@ def build(objs, tag, memo):
     if not kids:
         if shape % 2 == 0:
             t = ConstantPT(2, {'a': 0.5}, identifier=ident, measurements=meas)
-        else:
+        elif o['payload'] % 4 == 1:
             t = FunctionPT('sin(t)', 3, channel='a', identifier=ident, measurements=meas)
+        else:       # (parsing the expression of a FunctionPT dominates the run time: only every fourth such leaf)
+            t = ConstantPT(3, {'a': 0.25}, identifier=ident, measurements=meas)
     elif len(kids) == 1 and shape % 2 == 1:
         t = RepetitionPT(kids[0], 3, identifier=ident, measurements=meas)
     else:
@@ -287,13 +341,22 @@ def observe(kind, scratch, backend):
         path = os.path.join(scratch, 'store.zip')
         if not os.path.isfile(path):
             return {'missing': True, 'entries': []}
-        be = ZipFileBackend(path)
+        try:
+            be = ZipFileBackend(path)
+            sorted(be)
+        except (zipfile.BadZipFile, FileExistsError):
+            # the file is there but is not a readable archive any more: every entry is lost
+            return {'missing': True, 'entries': []}
+    texts = [(name, be.get(name)) for name in sorted(be)]
+    key = tuple(texts)
+    if key in _OBS_CACHE:           # the result is a function of the complete content of the backend
+        return json.loads(_OBS_CACHE[key])
     entries = []
-    for name in sorted(be):
+    for name, text in texts:
         m = re.fullmatch(r'n(\d+)', name)
         if not m:
             raise RuntimeError('unexpected identifier listed: %r' % name)
-        doc = parse_doc(be.get(name))
+        doc = parse_doc(text)
         try:
             with vlib.time_limit(10):
                 obj = PulseStorage(be)[name]
@@ -303,14 +366,18 @@ def observe(kind, scratch, backend):
         except Exception:
             loads = False
         entries.append([int(m.group(1)), doc, loads])
-    return {'missing': False, 'entries': entries}
+    res = {'missing': False, 'entries': entries}
+    _OBS_CACHE[key] = json.dumps(res)
+    return res
 
 
+_OBS_CACHE = {}
 _counter = [0]
 
 
-def execute(case, fault_at=None):
-    """One run of history (no failures) + final operation (with the fault_at-th primitive failing)."""
+def execute(case, fault_at=None, kill=None):
+    """One run of history (no failures) + final operation (with the fault_at-th primitive failing, exception
+    semantics).  kill = 'count': no failure, the positions of the kill runs are counted."""
     from qupulse.serialization import PulseStorage
     _counter[0] += 1
     scratch = os.path.join(SCRATCH_ROOT, 'r%d' % _counter[0])
@@ -327,7 +394,7 @@ def execute(case, fault_at=None):
                 if r == 'fault':
                     raise RuntimeError('fault outside injection')
             before = observe(kind, scratch, backend)
-            inj = Injector(None if kind == 'dict' else scratch, fault_at, case.get('fault', 'raise'))
+            inj = Injector(None if kind == 'dict' else scratch, fault_at, case.get('fault', 'raise'), kill)
             if kind == 'dict':
                 inj.wrap_backend_methods(backend)
             with inj:
@@ -335,7 +402,7 @@ def execute(case, fault_at=None):
             after = observe(kind, scratch, backend)
             res = {'before': before, 'outcome': outcome, 'after': after, 'count': inj.count, 'trace': inj.trace,
                    'writes_before': inj.writes_before, 'fired': inj.fired}
-            if case.get('post'):
+            if case.get('post') and kill is None:
                 res['post_outcome'] = apply_op(ps, case['post'], case['objs'], memo)
                 res['post_obs'] = observe(kind, scratch, backend)
             return res
@@ -343,5 +410,149 @@ def execute(case, fault_at=None):
         shutil.rmtree(scratch, ignore_errors=True)
 
 
+def _in_child(fn):
+    """run fn() in a forked child; -> (exit code, JSON value fn returned or None).  The child never returns."""
+    rfd, wfd = os.pipe()
+    pid = os.fork()
+    if pid == 0:
+        status = 3
+        try:
+            os.close(rfd)
+            res = fn()
+            os.write(wfd, json.dumps(res).encode())
+            status = 0
+        except BaseException as e:
+            try:
+                os.write(wfd, json.dumps({'child_error': '%s: %s' % (type(e).__name__, str(e)[:300])}).encode())
+            except BaseException:
+                pass
+            status = 4
+        finally:
+            os._exit(status)
+    os.close(wfd)
+    try:
+        data = b''
+        while True:
+            chunk = os.read(rfd, 1 << 16)
+            if not chunk:
+                break
+            data += chunk
+        _, st = os.waitpid(pid, 0)
+    except BaseException:
+        try:
+            os.kill(pid, 9)
+            os.waitpid(pid, 0)
+        except OSError:
+            pass
+        raise
+    finally:
+        os.close(rfd)
+    return os.waitstatus_to_exitcode(st), (json.loads(data.decode()) if data else None)
+
+
+def execute_all(case, kill_modes=(), raise_runs=True):
+    """All runs of one case on a persistent backend.  The history runs once (no failures); the scratch directory is
+    saved; every run of the final operation happens in a forked child (which inherits the PulseStorage with its
+    cache) and the directory is restored afterwards.
+      * exception semantics: the child performs the operation with the k-th primitive raising, observes, performs
+        the follow-up operation on the same PulseStorage, observes, and reports;
+      * kill semantics (modes 'noflush' / 'flush'): the child stops (os._exit: no except / finally / __exit__ code, no
+        buffered data unless 'flush') before position k; the observation and the follow-up operation are done by
+        this process with NEW backend / PulseStorage objects, i.e. what a new process sees."""
+    from qupulse.serialization import PulseStorage
+    _counter[0] += 1
+    scratch = os.path.join(SCRATCH_ROOT, 'r%d' % _counter[0])
+    backup = scratch + '.bak'
+    os.makedirs(scratch)
+    kind = case['backend']
+    if kind == 'dict':
+        raise ValueError('needs a persistent backend')
+    try:
+        with warnings.catch_warnings():
+            warnings.simplefilter('ignore')
+            backend = make_backend(kind, scratch)
+            ps = PulseStorage(backend)
+            memo = {}
+            for op in case['history']:
+                if apply_op(ps, op, case['objs'], memo) == 'fault':
+                    raise RuntimeError('fault outside injection')
+            before = observe(kind, scratch, None)
+            shutil.copytree(scratch, backup)
+
+            def restore():
+                shutil.rmtree(scratch, ignore_errors=True)
+                shutil.copytree(backup, scratch)
+
+            def raise_run(fault_at):
+                def fn():
+                    inj = Injector(scratch, fault_at, case.get('fault', 'raise'))
+                    with inj:
+                        outcome = apply_op(ps, case['final'], case['objs'], memo)
+                    res = {'outcome': outcome, 'after': observe(kind, scratch, None), 'count': inj.count,
+                           'trace': inj.trace, 'writes_before': inj.writes_before, 'fired': inj.fired}
+                    if case.get('post'):
+                        res['post_outcome'] = apply_op(ps, case['post'], case['objs'], memo)
+                        res['post_obs'] = observe(kind, scratch, None)
+                    return res
+                code, res = _in_child(fn)
+                restore()
+                if code != 0 or res is None or 'child_error' in res:
+                    raise RuntimeError('run with failure at %s: exit %s %s' % (fault_at, code, res))
+                return res
+
+            def kill_run(fault_at, mode):
+                def fn():
+                    inj = Injector(scratch, fault_at, case.get('fault', 'raise'), mode)
+                    with inj:
+                        apply_op(ps, case['final'], case['objs'], memo)
+                    return inj.trace
+                return _in_child(fn)
+
+            out = {'before': before, 'kills': [], 'ktrace': []}
+            if raise_runs:      # (slower than re-running the history in this process: not used by the check)
+                r0 = raise_run(None)
+                r0['before'] = before
+                runs = []
+                for k in range(r0['count']):
+                    rk = raise_run(k)
+                    rk['before'] = before
+                    runs.append(rk)
+                out.update({'r0': r0, 'runs': runs})
+            if kill_modes:
+                code, trace = kill_run(None, 'count')
+                out['after'] = observe(kind, scratch, None)
+                restore()
+                if code != 0:
+                    return {'error': 'kill counting run: exit %s' % code}
+                out['ktrace'] = trace
+                for mode in kill_modes:
+                    seq = []
+                    for k in range(len(trace)):
+                        code, _ = kill_run(k, mode)
+                        if code != KILL_STATUS:
+                            return {'error': 'kill run k=%d (%s) did not stop at the position (exit %s)' % (k, mode, code)}
+                        top = scratch if kind == 'zip' else os.path.join(scratch, 'store')
+                        leftovers = [f for f in os.listdir(top) if not re.fullmatch(r'n\d+\.json|store\.zip', f)]
+                        r = {'k': k, 'prim': trace[k], 'mode': mode, 'wb': k, 'obs': observe(kind, scratch, None),
+                             'leftovers': len(leftovers), 'post_outcome': None}
+                        if case.get('post'):
+                            try:
+                                ps2 = PulseStorage(make_backend(kind, scratch))
+                                r['post_outcome'] = apply_op(ps2, case['post'], case['objs'], {})
+                            except Exception:      # e.g. the archive is not readable any more
+                                r['post_outcome'] = 'unusable'
+                            r['post'] = observe(kind, scratch, None)
+                        else:
+                            r['post'] = r['obs']
+                        seq.append(r)
+                        restore()
+                    out['kills'].append(seq)
+            return out
+    finally:
+        shutil.rmtree(scratch, ignore_errors=True)
+        shutil.rmtree(backup, ignore_errors=True)
+
+
 def cleanup():
+    _OBS_CACHE.clear()
     shutil.rmtree(SCRATCH_ROOT, ignore_errors=True)
